@@ -13,7 +13,7 @@ REQUIRED = ['gregory_subtract_exact', 'gregory_split_equal', 'gregory_meets_spec
             'hare_draws_in_contract', 'hare_draw_outside_contract',
             'conservation', 'conservation_runCounts', 'conservation_gregory', 'conservation_hare', 'conservation_step',
             'trace_states_reached', 'weights_nonneg', 'topCont_some_iff', 'topCont_none_iff',
-            'rests_with_top_continuing', 'exhausted_only_when_none_remains', 'rests_with_top_of_strict_prefix', 'shared_first_rank_divides_equally',
+            'rests_with_top_continuing', 'exhausted_only_when_none_remains', 'rests_with_top_of_strict_prefix', 'topItem_some_iff', 'rests_with_top_rank', 'shared_first_rank_divides_equally',
             'elected_only_by_quota_or_last_standing', 'retained_count_formula', 'eliminates_exactly_lowest',
             'exhausted_pile_never_contender', 'removed_after_election_are_elected']
 REQUIRED_COUNTERS = ['surplus_transfer', 'exhausted_pile_gt_candidate', 'shared_first_rank', 'zero_first_pref_candidate',
@@ -700,4 +700,5 @@ LEVEL_TEXT = ('initial_allocation, next_count (quota election with over-award co
 LEVEL_NOTE = ('Trusted: Lean kernel + propext/Classical.choice/Quot.sound; translate.py for the quota functions; the correspondence '
               'harness (bounded by its generator: <= 6 candidates, <= 10 ballot types); the random module (Hare draws are recorded and '
               'replayed, the DrawOK contract is checked on both sides); frozenset iteration order and the order of papers in a pile. '
-              'The "top continuing" clause is proved for ballots without shared ranks, as the property states it.')
+              'The "top continuing" clause is proved for ballots without shared ranks as the property states it, and in the general form '
+              '(a continuing member of the highest rank that has one) for ballots with shared ranks.')
